@@ -594,6 +594,13 @@ static void stage_bss(void) {
                     else st = carquet_byte_stream_split_decode_double(enc, nb, (double*)dec, count);
                     if (count > 0 && (st != CARQUET_OK || memcmp(dec, v, nb)))
                         FAILF(C12 ? "bss.ref-encoded.values" : "bss.self.values", "width=%d count=%d api=%d status=%d", width, count, api, st);
+                    /* the generic and the typed entry point decode the same encoding: handed the same window (the encoded values followed by further bytes, as inside a larger buffer)
+                     * they return the same values */
+                    if (api && count > 0) for (int sl = 0; sl < 3; sl++) { size_t slack = sl == 0 ? 1 : sl == 1 ? (size_t)width : 3 * (size_t)width + 1; uint8_t* win = mc_exact(NULL, nb + slack); memcpy(win, enc, nb); memset(win + nb, 0x5A, slack);
+                        uint8_t* d1 = mc_exact(NULL, nb + 1); uint8_t* d2 = mc_exact(NULL, nb + 1); memset(d1, 0xEE, nb + 1); memset(d2, 0xEE, nb + 1);
+                        carquet_status_t s1 = carquet_byte_stream_split_decode(win, nb + slack, width, d1, count), s2 = width == 4 ? carquet_byte_stream_split_decode_float(win, nb + slack, (float*)d2, count) : carquet_byte_stream_split_decode_double(win, nb + slack, (double*)d2, count);
+                        if (s1 != s2 || (s1 == CARQUET_OK && memcmp(d1, d2, nb))) FAILF("bss.generic-and-typed-decoders-disagree", "width=%d count=%d window of %zu bytes: generic status %d %s, typed status %d %s", width, count, nb + slack, s1, mc_hex(d1, nb, 16), s2, mc_hex(d2, nb, 16));
+                        free(win); free(d1); free(d2); }
                 }
                 free(v); free(enc); free(dec);
             }
